@@ -75,7 +75,8 @@ def IN_APP_EXCLUDE():
     else:
         if ',' in user_defined:
             user_defined = user_defined.split(',')
-        user_defined = [user_defined]
+        else:
+            user_defined = [user_defined]
 
     prefix = sys.exec_prefix
     user_defined.append(prefix)
